@@ -4,7 +4,8 @@ import PeptVerif.Model.Isotope
 
 ops (TAB separated):
   iso    formula maxIso minThr res neutron convThr A sum outMass neutronMass precision floor fmt
-         -> OK <max un-normalised> <Σ normalised kept> <round-diag> <topk-diag> <dist>     | ERR:<name>
+         -> OK <max un-normalised> <Σ normalised kept> <dist>     | ERR:<name>
+  isodiag (same arguments) -> <min distance of a pre-rounding key from a rounding boundary> <min relative gap at a top-k cut>
   elem   key count neutron floor fmt            -> <dist>   (insertion order)
   conv   d1 d2 maxIso thr res fmt               -> <dist>   (insertion order)
   merge  d1|d2|...  precision fmt               -> <dist>
@@ -113,25 +114,28 @@ def isExact (s : String) : Bool := s == "exact"
 
 def step (line : String) : String :=
   match splitTab line with
-  | ["iso", f, mi, mt, res, neu, ct, a, sm, om, nm, pr, fl, fmt] =>
+  | [op, f, mi, mt, res, neu, ct, a, sm, om, nm, pr, fl, fmt] =>
+    if op != "iso" && op != "isodiag" then "bad-op" else
     match parseFormula? f, parseOptNat? mi, parseOptRat? mt, parseOptInt? res, parseBool? neu, parseOptRat? ct,
           parseRat? a, parseBool? sm, parseBool? om, parseRat? nm, parseOptInt? pr, parseOptRat? fl with
     | some f, some mi, some mt, some res, some neu, some ct, some a, some sm, some om, some nm, some pr, some fl =>
       let o : Opts := { maxIsotopes := mi, minAbundanceThreshold := mt, resolution := res, useNeutronCount := neu,
                         convMinAbundanceThreshold := ct, distributionAbundance := a, isAbundanceSum := sm,
                         outputMassesForNeutronOffset := om, neutronMass := nm, precision := pr, floor := fl }
-      match isotopicDistribution f o with
+      if op == "isodiag" then
+        let dg := diagAll o (cleanFormula f) [((0 : Rat), 1)] (1, 1)
+        showRatApprox dg.1 ++ "\t" ++ showRatApprox dg.2
+      else
+      match rawDistribution f o with
       | .error e => showErr e
-      | .ok d =>
-        match rawDistribution f o with
+      | .ok (total, particle, delta, fm) =>
+        match finishDistribution o total particle delta fm with
         | .error e => showErr e
-        | .ok (total, _, _, _) =>
+        | .ok d =>
           let mx := (maxAb total).getD 1
           let thr := mt.getD 0
           let sn := sumAb ((total.filter (fun p => decide (thr ≤ p.2 / mx))).map (fun p => (p.1, p.2 / mx)))
-          let dg := diagAll o (cleanFormula f) [((0 : Rat), 1)] (1, 1)
-          "OK\t" ++ showRatApprox mx ++ "\t" ++ showRatApprox sn ++ "\t" ++ showRatApprox dg.1 ++ "\t" ++
-            showRatApprox dg.2 ++ "\t" ++ showDist (isExact fmt) d
+          "OK\t" ++ showRatApprox mx ++ "\t" ++ showRatApprox sn ++ "\t" ++ showDist (isExact fmt) d
     | _, _, _, _, _, _, _, _, _, _, _, _ => "bad-op"
   | ["elem", k, c, neu, fl, fmt] =>
     match c.toNat?, parseBool? neu, parseOptRat? fl with
